@@ -85,12 +85,16 @@ class Fn:
             elif isinstance(st, ast.AnnAssign) and st.value is not None:
                 targets, val = [st.target], st.value
             else:
-                continue
+                targets, val = [], None
             for t in targets:
                 c = attr_chain(t)
                 if c is None:
                     continue
                 out.append((st, t, val, c))
+            # assignment expressions bound in this statement's own expressions (`if (x := e) is not None:`)
+            for n in _walk_stmt_exprs(st):
+                if isinstance(n, ast.NamedExpr):
+                    out.append((st, n.target, n.value, n.target.id))
         return out
 
     def updates(self, chain: str) -> list[tuple[ast.stmt, ast.operator, ast.expr]]:
